@@ -1762,7 +1762,7 @@ func parseOpenSSHPrivateKey(key []byte, decrypt openSSHDecryptFunc) (crypto.Priv
 			return nil, errors.New("ssh: failed to unmarshal public key")
 		}
 
-		if key.D.Cmp(curve.Params().N) >= 0 {
+		if key.D.Sign() <= 0 || key.D.Cmp(curve.Params().N) >= 0 {
 			return nil, errors.New("ssh: scalar is out of range")
 		}
 
